@@ -15,6 +15,7 @@ from resonaate.data.detected_maneuver import DetectedManeuver
 from resonaate.data.ephemeris import EstimateEphemeris
 from resonaate.data.filter_step import FilterStep, filter_map
 from resonaate.estimation import (
+    AdaptiveFilter,
     adaptiveEstimationFactory,
     initialOrbitDeterminationFactory,
     sequentialFilterFactory,
@@ -475,7 +476,8 @@ class EstimateAgent(Agent):  # pylint: disable=too-many-public-methods
         Args:
             observations (list): :class:`.Observation` objects of this agent.
         """
-        if self.maneuver_detected:
+        # [NOTE]: An adaptive filter that is still running keeps reporting the maneuver it was started for.
+        if self.maneuver_detected and not isinstance(self.nominal_filter, AdaptiveFilter):
             self._beginAdaptiveEstimation(observations)
 
         if FilterFlag.ADAPTIVE_ESTIMATION_CLOSE in self.nominal_filter.flags:
